@@ -244,6 +244,19 @@ def impl_policy(c):
             r = pol.pop()
             out.append(dict(ok=True, res=None if r is None else r.id, snap=snap_policy(pol, lambda x: x), cap=_cap(pol),
                             empty=pol.is_empty(), peek=_peek(pol)))
+    if type(pol).__name__ == "DeadlineQueue" and out:
+        # final phase, oracle only (not part of the Coq comparison): an operator purges the expired entries at some
+        # instant, then the queue is drained; count_valid / purge_expired / pop must agree with the deadlines
+        held = {it.id: it for it in live.values() if it.id in out[-1]["snap"][1]}
+        dls = sorted(it.dl for it in held.values())
+        at = dls[len(dls) // 2] if dls else cur["now"]          # median deadline: expired and live entries coexist
+        cur["now"] = max(cur["now"], at)
+        valid = pol.count_valid()
+        removed = pol.purge_expired()
+        drained = []
+        while (r := pol.pop()) is not None and len(drained) < 200:
+            drained.append(r.id)
+        out[-1]["purge"] = dict(at=cur["now"], held=[[i, it.dl] for i, it in sorted(held.items())], valid=valid, removed=removed, drained=drained)
     return out
 
 
@@ -296,9 +309,26 @@ def base_policy(p):
     return base_policy(p["inner"]) if p["kind"] == "balk" else p
 
 
+def oracle_purge(obs):
+    pg = obs[-1].get("purge") if obs else None
+    if not pg:
+        return []
+    live = [(dl, i) for i, dl in pg["held"] if not dl < pg["at"]]
+    if pg["valid"] != len(live) or pg["removed"] != len(pg["held"]) - len(live):
+        return [dict(clause="deadline queue: count_valid / purge_expired count exactly the entries whose deadline has not passed", observed=pg)]
+    # ties on the deadline leave in insertion order = id order (ids are allocated in push order)
+    if pg["drained"] != [i for _, i in sorted(live)]:
+        return [dict(clause="deadline queue: after a purge the remaining entries still leave earliest deadline first", observed=pg,
+                     expected=[i for _, i in sorted(live)])]
+    return []
+
+
 def oracle_policy(c, obs):
     """C08, policy clauses: never holds more than its capacity; enqueued = dequeued +
     dropped + held at all times; items leave in the order the policy defines."""
+    pf = oracle_purge(obs)
+    if pf:
+        return pf
     p = c["policy"]
     kind = base_kind(p)
     inner = p["inner"] if p["kind"] == "balk" else p
